@@ -21,22 +21,37 @@ type c22p struct {
 	queries int
 	stalled bool // query 0 is never drained (its consumer stopped reading)
 	fixture string
+	// closeOne: another task closes query 0's cursor at some point (a worker of that query
+	// may be waiting for an I/O slot then)
+	closeOne bool
 }
 
 func (p c22p) name() string {
-	return fmt.Sprintf("%s-c%d-q%d-stalled_%v", p.fixture, p.conc, p.queries, p.stalled)
+	n := fmt.Sprintf("%s-c%d-q%d-stalled_%v", p.fixture, p.conc, p.queries, p.stalled)
+	if p.closeOne {
+		n += "-closeone"
+	}
+	return n
 }
 
 func c22Root(p c22p) func() {
 	return func() {
 		data, meta := loadFixture(p.fixture)
 		inRead := 0
+		gate := make(chan struct{})
+		parked := 0
 		data.Hook = &hstore.Hook{
 			Enter: func(op, ptr string, n int) error {
 				if op == "Read" {
 					inRead++
 					if inRead > p.conc {
 						vapi.Fail("C22: %d DataStore reads by queries in progress at once, MaxQueryConcurrency=%d", inRead, p.conc)
+					}
+					if p.closeOne && parked < 2 {
+						// the first two reads each stay in progress (holding a slot) until the
+						// controller lets them go, one at a time
+						parked++
+						<-gate
 					}
 					vapi.Point("read-in-progress")
 				}
@@ -67,7 +82,32 @@ func c22Root(p c22p) func() {
 			stalledRes = r
 			vapi.Quiesce() // its workers fill the row buffer and park on delivery
 		}
+		toClose := make(chan *bs.Results, 1)
+		if p.closeOne {
+			// query 0 starts alone and parks in its filter-region read (holding the only slot);
+			// query 1 then starts and queues for the slot; read 1 is let go: query 0 finishes its
+			// file stage, hands the slot back and has a block job waiting for a slot, while the
+			// next read to start parks again; query 0 is closed in that state; then everything runs
+			wg.Add(1)
+			go func() {
+				defer wg.Done()
+				res := <-toClose
+				vapi.Quiesce()
+				vapi.Quiesce() // (query 1 has been started by main in between)
+				gate <- struct{}{}
+				vapi.Quiesce()
+				// Close waits for the query to wind down, which may itself have to wait for a parked
+				// read of that query: it runs as its own task
+				wg.Add(1)
+				go func() { defer wg.Done(); res.Close() }()
+				vapi.Quiesce()
+				close(gate)
+			}()
+		}
 		for q := 0; q < p.queries; q++ {
+			if p.closeOne && q == 1 {
+				vapi.Quiesce() // query 0 is parked in its first read by now
+			}
 			wg.Add(1)
 			go func(q int) {
 				defer wg.Done()
@@ -80,6 +120,9 @@ func c22Root(p c22p) func() {
 					vapi.Fail("Query: %v", err)
 					return
 				}
+				if p.closeOne && q == 0 {
+					toClose <- res
+				}
 				n := 0
 				for res.Next() {
 					n++
@@ -90,6 +133,9 @@ func c22Root(p c22p) func() {
 				want := fixtureHits[p.fixture]
 				if tok == "other" {
 					want = 1
+				}
+				if p.closeOne && q == 0 {
+					want = n // closed at an arbitrary moment: any prefix of its rows
 				}
 				if n != want {
 					vapi.Fail("C22: query %d (Token(%s)) returned %d rows, want %d", q, tok, n, want)
@@ -169,10 +215,14 @@ func init() {
 		fixtures["reordered"] = out
 	}
 	fixtureHits["reordered"] = 6
+	// one file with a single matching row: the smallest query that still opens, reads the filter
+	// region and reads one block
+	setupTiny := buildFixture("tiny", [][]map[string]any{{{"id": "t0", "p": "x", "k": "hit"}, {"id": "miss", "p": "y", "k": "other"}}})
+	fixtureHits["tiny"] = 1
 	Registry["C22"] = func(tier string) []Scenario {
-		ps := []c22p{{1, 2, false, "small"}, {2, 2, false, "small"}, {1, 1, true, "wide"}, {1, 1, true, "manysmall"}, {2, 1, true, "manysmall"}, {1, 2, false, "reordered"}}
+		ps := []c22p{{1, 2, false, "small", false}, {2, 2, false, "small", false}, {1, 1, true, "wide", false}, {1, 1, true, "manysmall", false}, {2, 1, true, "manysmall", false}, {1, 2, false, "reordered", false}, {1, 2, false, "small", true}}
 		if tier == "thorough" {
-			ps = append(ps, c22p{2, 3, false, "small"}, c22p{1, 3, false, "small"}, c22p{2, 2, true, "wide"}, c22p{1, 2, true, "wide"}, c22p{3, 2, true, "manysmall"}, c22p{2, 2, false, "manysmall"}, c22p{2, 3, false, "reordered"}, c22p{1, 3, false, "reordered"})
+			ps = append(ps, c22p{2, 3, false, "small", false}, c22p{1, 3, false, "small", false}, c22p{2, 2, true, "wide", false}, c22p{1, 2, true, "wide", false}, c22p{3, 2, true, "manysmall", false}, c22p{2, 2, false, "manysmall", false}, c22p{2, 3, false, "reordered", false}, c22p{1, 3, false, "reordered", false}, c22p{2, 3, false, "small", true}, c22p{1, 2, false, "manysmall", true})
 		}
 		var out []Scenario
 		for _, p := range ps {
@@ -188,6 +238,15 @@ func init() {
 			}
 			if p.fixture == "reordered" {
 				s.Setup = setupReordered
+			}
+			if p.closeOne {
+				s.Sched = 1
+				if p.fixture == "manysmall" {
+					s.Setup = setupMany
+				}
+				if p.fixture == "tiny" {
+					s.Setup = setupTiny
+				}
 			}
 			if tier == "thorough" && p.fixture == "small" && p.queries == 2 {
 				s.DelayBound, s.Sched = false, 1
